@@ -16,13 +16,14 @@ EXTENDS Codec, Json, IOUtils, SequencesExt
 Rec == ndJsonDeserialize(IOEnv.TRACE)
 N   == Len(Rec)
 
-VARIABLE l
-tvars == <<vars, l>>
+VARIABLES l,
+          pcap     \* capacity (in blocks) of the working space before the call, as the previous snapshot reported it
+tvars == <<vars, l, pcap>>
 
 Has(e, f) == f \in DOMAIN e
 
 TraceInit ==
-  /\ l = 1
+  /\ l = 1 /\ pcap = 0
   /\ kind = "none" /\ cfg = [k |-> 1, r |-> 1, sb |-> 2] /\ rate = "high"
   /\ added = <<>> /\ gotO = {} /\ gotR = {} /\ res = "none"
   /\ held = [blocks |-> 0, bits |-> 0]
@@ -46,12 +47,15 @@ SnapOK(e) ==
   /\ s.kind = kind' /\ s.rate = rate'
   /\ s.k = cfg'.k /\ s.r = cfg'.r /\ s.sb = cfg'.sb
   /\ s.live = (res' = "live")
-  /\ IF Role = "enc" THEN s.oc = Len(added')
-     ELSE /\ SeqToSet(s.gotO) = gotO' /\ SeqToSet(s.gotR) = gotR'
-          /\ s.oc = Cardinality(gotO') /\ s.rc = Cardinality(gotR') /\ s.stray = 0
-          \* placement and sizes are what the design says (Envelope.tla)
-          /\ s.obase = OriginalBase(rate', cfg'.k, cfg'.r) /\ s.rbase = RecoveryBase(rate', cfg'.k, cfg'.r)
-  /\ s.wc = (IF Role = "enc" THEN WorkCountEnc(rate', cfg'.k, cfg'.r) ELSE WorkCountDec(rate', cfg'.k, cfg'.r))
+  \* the round's bookkeeping - except while a result is outstanding: the object is mutably borrowed then, no call can
+  \* observe the counters, and an implementation may clear them at the end of the round or when the result is dropped;
+  \* the received originals are still compared (restored_original depends on them)
+  /\ IF Role = "enc" THEN (res' # "live" => s.oc = Len(added'))
+     ELSE /\ SeqToSet(s.gotO) = gotO'
+          /\ res' # "live" => /\ SeqToSet(s.gotR) = gotR'
+                               /\ s.oc = Cardinality(gotO') /\ s.rc = Cardinality(gotR') /\ s.stray = 0
+  \* at least the positions the algorithm needs (Envelope.tla); where they are placed shows in the bytes of the results
+  /\ s.wc >= (IF Role = "enc" THEN WorkCountEnc(rate', cfg'.k, cfg'.r) ELSE WorkCountDec(rate', cfg'.k, cfg'.r))
   \* the buffer covers the configuration's need (it may be longer: how much of the owned memory is kept "in use"
   \* between configurations is not observable and not part of any property)
   /\ s.len >= s.wc * Blocks(cfg'.sb) /\ s.cap >= s.len
@@ -71,8 +75,12 @@ RetOK(e) == e.ret \in last'.allowed
 (* and capacity are required to stay.                                      *)
 (***************************************************************************)
 HugeShard == 400000
+\* "needs no more than is held" is decided from what the object itself reports: positions x blocks per shard after the
+\* call against the capacity it had before the call (pcap)
+\* (calls that do not reconfigure - accessors, adds, encode / decode - need nothing new)
+NeedObs(e) == IF Has(e, "snap") /\ ~Has(e.snap, "missing") /\ Has(e.snap, "wc") THEN e.snap.wc * Blocks(cfg'.sb) ELSE 0
 AllocOK(e) ==
-  (Has(e, "abytes") /\ ~last'.may_alloc /\ cfg'.sb >= 1024) =>
+  (Has(e, "abytes") /\ NeedObs(e) <= pcap /\ cfg'.sb >= 1024) =>
      /\ (cfg'.sb >= HugeShard => (IF Has(e, "amax") THEN e.amax ELSE e.abytes) < cfg'.sb)   \* largest single allocation
      /\ (Has(e, "ptr_same") => e.ptr_same)
 CapacityOK(e) ==
@@ -120,7 +128,8 @@ Step(e) ==
 
 TraceNext == /\ l <= N
              /\ l' = l + 1
-             /\ \E e \in {Rec[l]} : e.role = Role /\ Step(e)
+             /\ \E e \in {Rec[l]} : /\ e.role = Role /\ Step(e)
+                                    /\ pcap' = IF e.ev = "drop" \/ ~Has(e, "snap") \/ Has(e.snap, "missing") \/ ~Has(e.snap, "cap") THEN pcap ELSE e.snap.cap
 TraceSpec == TraceInit /\ [][TraceNext]_tvars
 
 \* the design invariants hold along every recorded history as well
